@@ -430,6 +430,13 @@ def run_history(rnd, nops, b):
                 b.feat('op_copy')
             elif op == 'subgraph' and keys and len(pool) < 5:
                 ks = rnd.sample(keys, rnd.randint(1, len(keys)))
+                if rnd.random() < 0.3 and len(ks) < len(keys):
+                    # a selection that mentions atoms more than once (overlapping pieces concatenated), often exactly as long
+                    # as the molecule without covering it
+                    extra = [rnd.choice(ks) for _ in range(len(keys) - len(ks) if rnd.random() < 0.6 else rnd.randint(1, 3))]
+                    ks = ks + extra
+                    rnd.shuffle(ks)
+                    b.feat('op_subgraph_selection_with_repeats')
                 pool.append([m.subgraph(ks), s.subgraph(ks)])
                 entry.append(ks)
                 b.feat('op_subgraph')
